@@ -528,7 +528,8 @@ def write_evidence(pid, mod, tier, verif_seed, items, reported, harness_errors, 
     for i in items:
         states.update(i["states"])
         bigrams.update(tuple(b) for b in i["bigrams"])
-    samples = [i["sample"] for i in items if "sample" in i][:3]
+    samples = [i["sample"] for i in items if "sample" in i and i["pinned"]][:1] + \
+        [i["sample"] for i in items if "sample" in i and not i["pinned"]][:2]
     if not samples:
         samples = [{"note": "no sample recorded", "runs": len(items)}]
     known = collections.Counter()
